@@ -183,10 +183,14 @@ class Bed:
         ph = self.STAT[phase].name if phase is not None else None
         based = st.version
 
+        also = list(getattr(self, "_also", None) or [])     # multi-row suite: further rows stored in the SAME transaction after the stage
+
         def f():
             if txn:
                 with store.transaction() as t:
                     t.store_stage(st, expected_phase=ph)
+                    for other in also:
+                        t.store_stage(other)
             else:
                 store.store_stage(st, expected_phase=ph)
 
@@ -545,6 +549,9 @@ class TornBed(Bed):
         self.torn: dict[int, bool] = {}
         self.keep = None
         self.nstmts = 0
+        self.obj2: dict[int, object] = {}       # multi-row suite: each client's in-memory copy of a SECOND row (stage d of the same workflow)
+        self._also = None
+        self.trace_ops: list[str] = []
         self.rebase_full = None
         self.sig_prefix = "torn-read:lost-update"
         self.was_torn = False
@@ -597,6 +604,56 @@ class TornBed(Bed):
         mine = (st.version, names.index(st.status.name), json.dumps(st.context, sort_keys=True),
                 {self.tid.get(t.id, -1): (t.version, names.index(t.status.name)) for t in st.tasks})
         return not any(mine == (sn["version"], sn["status"], json.dumps(sn["context"], sort_keys=True), sn["tasks"]) for sn in self.snaps)
+
+    def row2_version(self) -> int:
+        return self.admin.execute("SELECT version FROM stage_executions WHERE id = ?", (self.down_id,)).fetchone()[0]
+
+    def step2(self, op: str) -> str:
+        """ops of the multi-row suite on the second row T (= stage d) and the two-row transaction; returns what happened (for the trace).
+        read2:c | mod2:c:<entry> | write2:c (single-row transaction on T) | txn2:c (ONE transaction: store S, then store T)"""
+        from stabilize.errors import ConcurrencyError
+
+        toks = op.split(":")
+        k, c = toks[0], int(toks[1])
+        store = self.store
+        if k == "read2":
+            self.obj2[c] = self.clients[c].call(lambda: store.retrieve_stage(self.down_id))
+            return f"T v{self.obj2[c].version}"
+        if k == "mod2":
+            self.obj2[c].context[f"t{toks[2]}"] = int(toks[2])
+            return "ok"
+        if k == "write2":
+            t2 = self.obj2[c]
+
+            def f():
+                with store.transaction() as t:
+                    t.store_stage(t2)
+
+            try:
+                self.clients[c].call(f)
+                return f"ok, T row v{self.row2_version()}"
+            except ConcurrencyError:
+                return "conflict"
+        if k == "txn2":
+            t2 = self.obj2[c]
+            stale = self.row2_version() != t2.version
+            self._also = [t2]
+            try:
+                self.step(f"write:{c}:t:-")
+            finally:
+                self._also = None
+            out = self.outs[-1].split("#")[0]
+            if stale:
+                # model: a transaction whose second row loses its version check has NO effect on the first row and leaves the client's
+                # remembered versions as they were - i.e. it is no step of the single-row model at all
+                self.ops.pop()
+                last = self.outs.pop()
+                if out == "ok":
+                    self.hit("a transaction storing S and then T committed although T's version check had to fail (T was stale)",
+                             "multi-row:stale-second-row-committed")
+                return f"{out} (T stale: whole transaction must roll back) S row after: {last.split('#', 1)[1]}; in-memory S version {self.obj[c].version}"
+            return f"{out}, S row after: {self.outs[-1].split('#', 1)[1]}"
+        raise core.Infra(f"unknown op {op}")
 
     def step(self, op: str) -> None:
         toks = op.split(":")
@@ -983,6 +1040,85 @@ def _torn_write_suite(ctx, pool: Pool) -> None:
     ctx.correspond("torn-write", inputs, lines, impl)
 
 
+# ------------------------------------------------------------------------------------------------
+# multi-row transactions: a transaction stores S, then T; T loses its version check; the client RE-USES its in-memory S afterwards
+# ------------------------------------------------------------------------------------------------
+
+def run_multirow(pool: Pool, sc: dict, trace: list[str] | None = None) -> TornBed:
+    """sc = {status, ntasks, ops}: ops of the Mode-A language plus read2 / mod2 / write2 / txn2 (TornBed.step2).  The model line is the op
+    list WITHOUT the ops on the second row and WITHOUT a two-row transaction whose second row was stale (no effect, versions as before)."""
+    bed = TornBed(sc["status"], sc["ntasks"], pool.base, pool.clients)
+    bed.api, bed.bkind, bed.sig_prefix = "transaction(S,T)", f"tasks{sc['ntasks']}", "multi-row:lost-update"
+    try:
+        for op in sc["ops"]:
+            nh = len(bed.hits)
+            if op.split(":")[0] in ("read2", "mod2", "write2", "txn2"):
+                what = bed.step2(op)
+            else:
+                bed.step(op)
+                what = bed.outs[-1]
+            bed.trace_ops.append(op)
+            if trace is not None:
+                trace.append(f"  {op:22s} -> {what}")
+                for w, sig in bed.hits[nh:]:
+                    trace.append(f"PROPERTY FAILS at step `{op}`: {w}  [{sig}]")
+    finally:
+        bed.close()
+    return bed
+
+
+def multirow_scenarios(thorough: bool) -> list[dict]:
+    out = []
+    peer = ["read:1", "mod:1:3:7:-:0"]      # the peer's read-modify-write of S: status + a context key
+    for nt in (0, 1, 2):
+        for stale in (True, False):
+            for resave in (("t", "p") if thorough else ("t",)):
+                for pw in ("t", "p"):
+                    head = ["read:0", "read2:0"] + (["read2:1", "mod2:1:5", "write2:1"] if stale else []) + ["mod:0:-:8:-:0", "mod2:0:6", "txn2:0"]
+                    rmw = peer + [f"write:1:{pw}:-"]
+                    for pos in range(len(rmw) + 1):      # where client 0 re-saves its OLD in-memory S (no re-read) inside the peer's read-modify-write
+                        for again in ((False, True) if stale else (False,)):
+                            tail = rmw[:pos] + [f"write:0:{resave}:-"] + rmw[pos:]
+                            if again:
+                                tail.append(f"write:0:{resave}:-")      # and once more after the peer committed
+                            out.append({"status": 1, "ntasks": nt, "ops": head + tail})
+        # second "row" = a task row of S made stale by an outside writer: the stage row passes, the task row loses
+        for k in range(nt):
+            for resave in ("t", "p"):
+                out.append({"status": 1, "ntasks": nt, "ops": ["read:0", "mod:0:-:8:-:0", f"bump:{k}", f"write:0:{resave}:-", "read:1", "mod:1:3:7:-:0",
+                                                               "write:1:t:-", f"write:0:{resave}:-", f"retry:0:{resave}:-"]})
+    return out
+
+
+def _multirow_model(bed: TornBed) -> tuple[str, str]:
+    return f"cas {bed.status0} {bed.ntasks} " + ";".join(bed.ops), "|".join(bed.outs)
+
+
+def _multirow_suite(ctx, pool: Pool) -> None:
+    inputs, lines, impl = [], [], []
+    for sc in multirow_scenarios(ctx.thorough):
+        bed = run_multirow(pool, sc)
+        ctx.count(["multirow", sc], nontrivial=True)
+        ctx.tag("multi-row:" + ("second-row-stale" if "write2:1" in sc["ops"] else "task-row-stale" if any(o.startswith("bump") for o in sc["ops"]) else "both-rows-fresh"),
+                f"multi-row:tasks={sc['ntasks']}")
+        for o in bed.outs:
+            ctx.tag("multi-row:out:" + o.split("#")[0])
+        line, got = _multirow_model(bed)
+        inputs.append({"multirow": sc})
+        lines.append(line)
+        impl.append(got)
+        if len([x for x in ctx.samples if "multirow" in x]) < 1 and "write2:1" in sc["ops"]:
+            ctx.sample({"suite": "multi-row", "multirow": sc, "model_ops": bed.ops, "outs": bed.outs})
+        seen = set()
+        for what, sig in bed.hits:
+            if sig not in seen:
+                seen.add(sig)
+                ctx.violation(what + f"; op sequence {sc['ops']} (read2 / mod2 / write2 / txn2 = the second row T; txn2 = ONE transaction storing S then T)",
+                              sig, {"multirow": sc})
+    ctx.extra["multi_row_schedules"] = len(lines)
+    ctx.correspond("multi-row", inputs, lines, impl)
+
+
 def _run_replays(ctx, pool: Pool) -> None:
     d = core.VERIF / "replays" / "C07"
     if not d.is_dir():
@@ -991,6 +1127,20 @@ def _run_replays(ctx, pool: Pool) -> None:
     for f in sorted(d.glob("*.json")):
         body = json.loads(f.read_text())
         r = body.get("replay", body)
+        if "multirow" in r:
+            tb = run_multirow(pool, r["multirow"])
+            ctx.count(["multirow", r["multirow"]])
+            ctx.tag("replay-file")
+            line, got = _multirow_model(tb)
+            inputs.append({"file": f.name})
+            lines.append(line)
+            impl.append(got)
+            seen = set()
+            for what, sig in tb.hits:
+                if sig not in seen:
+                    seen.add(sig)
+                    ctx.violation(what, sig, {"multirow": r["multirow"]})
+            continue
         if "tornwrite" in r:
             tb = run_torn_write(pool, r["tornwrite"])
             ctx.count(["tornwrite", r["tornwrite"]])
@@ -1050,6 +1200,7 @@ def run(ctx) -> None:
         _run_replays(ctx, pool)
         _torn_suite(ctx, pool)
         _torn_write_suite(ctx, pool)
+        _multirow_suite(ctx, pool)
         _upsert_suite(ctx, pool, ctx.n(500, 5000))
         _suite(ctx, pool, ctx.n(3000, 16000), "cas-mode-a")
     except BaseException:
@@ -1087,6 +1238,22 @@ def replay(ctx, body) -> int:
     pool = Pool()
     try:
         r = body.get("replay", body)
+        if "multirow" in r:
+            sc = r["multirow"]
+            print(f"multi-row transaction: stage S with {sc['ntasks']} task row(s) and a second row T (another stage of the workflow); read2 / mod2 / write2 act on T, "
+                  f"txn2:c = ONE transaction of client c storing S and then T")
+            trace = []
+            tb = run_multirow(pool, sc, trace)
+            for ln in trace:
+                print(ln)
+            line, got = _multirow_model(tb)
+            model = ctx.lean([line])
+            if model is not None:
+                print("model line (ops on T and a two-row transaction whose T was stale are no steps of the single-row model):", line)
+                print("model agrees with the implementation:", model[0] == got)
+                if model[0] != got:
+                    print("  model:", model[0]); print("  impl :", got)
+            return 1 if tb.hits else 0
         if "tornwrite" in r:
             sc = r["tornwrite"]
             print(f"torn write: clients 0 and 1 read version 0 of a stage with {sc['ntasks']} task row(s) and set different context keys; client 0 calls "
